@@ -386,8 +386,13 @@ def run_selout_traces(ctx, per_property="C05"):
     return {"evaluations": evals, "distinct": len(distinct)}
 
 
+CURRENT_FILES = {}     # files (INCLUDE$ targets) the current input needs in the run directory; copied into replay data
+
+
 def handle_result(ctx, inp, cfg, res, mixed):
     rep = {"input": inp, "cfg": cfg_json(cfg)}
+    if CURRENT_FILES:
+        rep["files"] = dict(CURRENT_FILES)
     if res["diffs"]:
         # Q: correspondence broken. Evaluate the direct oracle.
         if res["oracle"] and not (mixed and all(k.startswith("sel-") for k, _ in res["oracle"])):
@@ -409,7 +414,10 @@ def handle_result(ctx, inp, cfg, res, mixed):
         if key in ("sel-string-rows", "sel-file-rows") and "INVERSE_MODELING" in inp and "-inverse_modeling true" in inp:
             # punch_model never signals end-of-row: file/string rows > table rows (known finding, see known_findings.txt)
             ctx.finding("inverse-rows-not-in-table", text, dict(rep, oracle=res["oracle"][:5]))
-        elif key in ("sel-string-rows", "sel-file-rows", "sel-file-ne-string") and n_user in res.get("redefined", []):
+        elif (key in ("sel-string-rows", "sel-file-rows", "sel-file-ne-string") and n_user in res.get("redefined", [])
+              and n_user in late_blocks(inp)):
+            # narrow rule: the punch file was re-opened after text had been punched for n (events) AND the input text
+            # re-reads a SELECTED_OUTPUT n block in a later simulation of this call
             ctx.finding("selected-output-redefined-within-call", text, dict(rep, oracle=res["oracle"][:5]))
         elif key.startswith("sel-") and mixed:
             ctx.finding("get_sel_out_string_on-ignores-n", text, dict(rep, oracle=res["oracle"][:5]))
@@ -417,6 +425,11 @@ def handle_result(ctx, inp, cfg, res, mixed):
             ctx.violation("model and code agree but the property's relation fails: " + text,
                           dict(rep, oracle=res["oracle"][:5]))
             return
+
+
+def late_blocks(inp):
+    """user numbers of SELECTED_OUTPUT blocks that the input text reads in a simulation after the first"""
+    return {b[1] for k, sim in enumerate(parse_input(inp)) if k >= 1 for b in sim if b[0] == "SELECTED_OUTPUT"}
 
 
 def users_without_newline(inp):
@@ -454,7 +467,8 @@ def cfg_from_json(j):
 def replay(ctx, data):
     exe = ctx.build_harness("ph_trace")
     cfg = cfg_from_json(data["cfg"])
-    res = one_case(ctx, exe, data["input"], cfg["users"], cfg)
+    prelude = [f"write {hx(k)} {hx(v)}" for k, v in data.get("files", {}).items()]
+    res = run_calls(ctx, exe, [(cfg, data["input"])], prelude=prelude)[0]
     print("replay:", {k: v for k, v in res.items() if k != "script"})
     if "crash" in res:
         ctx.violation("crash on replay", data)
@@ -581,7 +595,15 @@ class TextState:
                     tidy_kw = True
             first = (k == 0)
             tidy = tidy_kw or (first and bool(self.defs))
-            out.append(dict(first=first, pr_punch=self.pr_punch, tidy=tidy, blocks=blocks))
+            dump = None
+            for kw, n, body in sim:
+                if kw == "DUMP":
+                    dump = False
+                    for ln in body:
+                        w = ln.split()
+                        if w[0].lstrip("-").lower().startswith("app"):
+                            dump = (w[1].lower().startswith("t") if len(w) > 1 else True)
+            out.append(dict(first=first, pr_punch=self.pr_punch, tidy=tidy, blocks=blocks, dump=dump))
         ambiguous = {n for n, v in hp_seen.items() if len(v) > 1} | {n for n, c in up_seen.items() if c > 1} | late_def
         return dict(sims=out, late_redef=late_redef, ambiguous=ambiguous, inverse=any(b[0] == "INVERSE_MODELING" for s in sims for b in s))
 
@@ -607,7 +629,7 @@ def loop_is_hoisted():
     tail = _re.sub(r"//[^\n]*", "", src[j:j + 400])
     after = "tidy_punch()" in tail
     if inside == after:
-        raise RuntimeError("do_run: cannot tell where tidy_punch() is called relative to the file-open loop")
+        return None          # shape not recognised: the caller judges with the proved (hoisted) variant and reports it
     return after
 
 
@@ -619,6 +641,12 @@ def loop_guarded_by_print():
     if a < 0 or b < a:
         raise RuntimeError("do_run: file-open loop not recognised")
     return "pr.punch == FALSE" in _re.sub(r"//[^\n]*", "", src[a:b])
+
+
+def heading_before_open(sk, n):
+    """the heading line of n was written before punch_open(n) in this call (the file cannot hold it)"""
+    o, h = "o%d" % n, "h%d" % n
+    return o in sk and h in sk and sk.index(h) < sk.index(o)
 
 
 def skeleton_of_events(events):
@@ -842,6 +870,9 @@ def run_history(ctx, exe, inputs, cfgs, cells_cap=None, names=None, db=DB):
         raise RuntimeError("pmodel route: %d call reports for %d calls" % (len(blocks), len(inputs)))
     # ---- schedule model
     hoisted = loop_is_hoisted()
+    shape_unknown = hoisted is None
+    if shape_unknown:
+        hoisted = True
     guarded = loop_guarded_by_print()
     sl = ["sk reset"]
     for cfg, info in zip(cfgs, infos):
@@ -850,8 +881,23 @@ def run_history(ctx, exe, inputs, cfgs, cells_cap=None, names=None, db=DB):
             sl.append(f"sk sim {int(s['first'])} {int(s['pr_punch'] or not guarded)} {int(s['tidy'])} " + " ".join(f"{n}:{int(t)}" for n, t in s["blocks"]))
         sl.append("sk endcall")
     skout = [l.split()[2:] for l in ctx.pmodel("route", "\n".join(sl) + "\n") if l.startswith("P sk")]
+    # ---- dump model: one token per simulation stands for the text dump_ostream writes in that simulation
+    TOK = "ABCDEFGHIJKLMNOPQRSTUVWXYZabcdefghijklmnopqrstuvwxyz0123456789"
+    dl, tk = ["dm reset"], 0
+    for cfg, info in zip(cfgs, infos):
+        dl.append(f"dm cfg {int(cfg['dump'][1])} {int(cfg['dump'][0])}")
+        for s in info["sims"]:
+            dl.append(f"dm sim {int(s['dump'] is not None)} {int(bool(s['dump']))} 1 {TOK[tk % len(TOK)]}")
+            tk += 1
+        dl.append("dm endcall")
+    dmout = []
+    for l in ctx.pmodel("route", "\n".join(dl) + "\n"):
+        if l.startswith("P dm"):
+            w = l.split(" ")
+            dmout.append(dict(state=w[2:5], file=w[5][2:], str=w[6][2:]))
     res = []
     prev_views = None
+    dump_ok = True
     for k, (cfg, inp, rr, vr, blk, info) in enumerate(zip(cfgs, inputs, runrec, vrec, blocks, infos)):
         pv = parse_model_block(blk)
         if pv.get("bad", ["0"])[0] != "0":
@@ -870,6 +916,7 @@ def run_history(ctx, exe, inputs, cfgs, cells_cap=None, names=None, db=DB):
             if f != m:
                 diffs.append((f"selfile-history {n}", f[:200], m[:200]))
         bad = direct_oracle(cfg, views)
+        kept_off = 0
         # a disabled file sink receives nothing: content on disk unchanged by this call
         if prev_views is not None:
             for name in ("out", "log", "err"):
@@ -877,6 +924,8 @@ def run_history(ctx, exe, inputs, cfgs, cells_cap=None, names=None, db=DB):
                     bad.append((name + "-disabled-file-written", f"{name}: file switch off, yet the file changed during the call"))
             for n, fv in views.get("selfile", {}).items():
                 pf = prev_views.get("selfile", {}).get(n)
+                if pf is not None and not cfg["filesw"].get(n, False) and pf[1] == fv[1] and pf[2] == fv[2] and fv[2] not in ("!", "-"):
+                    kept_off += 1
                 if pf is not None and not cfg["filesw"].get(n, False) and pf[1] == fv[1] and pf[2] != fv[2]:
                     bad.append(("sel-disabled-file-written", f"sel {n}: file switch off, yet the file changed during the call"))
         nerr = sum(1 for e in events if e.startswith("EV err "))
@@ -885,11 +934,13 @@ def run_history(ctx, exe, inputs, cfgs, cells_cap=None, names=None, db=DB):
         r = {"diffs": diffs, "oracle": bad, "ret": ret, "events": len(events), "views": views, "info": info,
              "rows": sum(int(dict(x.split("=") for x in v)["rows"]) for v in views.get("sel", {}).values()),
              "redefined": sorted(info["late_redef"]), "call": k, "rel": [],
-             "sk_impl": skeleton_of_events(events)}
+             "sk_impl": skeleton_of_events(events), "kept_off": kept_off}
         # PRINT -selected_output false in effect for the whole call: the engine's own pr.punch after the call is FALSE and
         # the text of this call never switches it on
         eng_pr = dict(x.split("=") for x in views.get("dumpstate", [])).get("prpunch", "1")
         r["print_off_whole_call"] = (guarded and eng_pr == "0" and not _re.search(r"-selected_out\w*\s+t", inp, _re.I))
+        # variant: the first simulation of the call ran with PRINT -selected_output false (input texts), a later one switched it on
+        r["print_off_first_sim"] = guarded and bool(info["sims"]) and not info["sims"][0]["pr_punch"]
         # relation: defined numbers read from the texts = numbers the object reports (error-free calls)
         judged = (ret == 0 and not info["inverse"])
         if judged and all(x["ret"] == 0 for x in res):
@@ -919,6 +970,36 @@ def run_history(ctx, exe, inputs, cfgs, cells_cap=None, names=None, db=DB):
                         break
         else:
             r["dup_heading"] = []
+        # ---- dump relations (while every call so far completed without error)
+        dump_ok = dump_ok and ret == 0 and tk <= len(TOK)
+        ds = dict(x.split("=") for x in views.get("dumpstate", []))
+        if dump_ok and ds.get("prdump", "1") == "1":
+            dm = dmout[k]
+            r["dump_judged"] = True
+            if [ds.get("on"), ds.get("any"), ds.get("append")] != dm["state"]:
+                r["rel"].append(("dump-state", f"dump_info on/any/append {[ds.get('on'), ds.get('any'), ds.get('append')]} vs model {dm['state']}"))
+            fbytes = b"" if views["dumpfile"][2] == "!" else unhx(views["dumpfile"][2])
+            if fbytes.count(b"USE mix none") != len(dm["file"]):
+                r["rel"].append(("dump-file", f"dump file holds {fbytes.count(b'USE mix none')} dumps, model {len(dm['file'])} ({dm['file']!r})"))
+            if k > 0 and dmout[k - 1]["file"] == dm["file"] and prev_views is not None and views["dumpfile"][2] != prev_views["dumpfile"][2]:
+                r["rel"].append(("dump-file", "dump file changed in a call in which the model writes nothing to it"))
+            if cfg["dump"][0]:
+                sbytes = unhx(views["dumpstr"][1])
+                if sbytes.count(b"USE mix none") != len(dm["str"]):
+                    r["rel"].append(("dump-string", f"dump string holds {sbytes.count(b'USE mix none')} dumps, model {len(dm['str'])} ({dm['str']!r})"))
+                dlines = [unhx(x) for x in views["dumplines"][1:1 + int(views["dumplines"][0])]]
+                if dlines != lines_of(sbytes):
+                    bad.append(("dump-lines", "dump line accessors differ from the lines of the dump string"))
+                if cfg["dump"][1]:
+                    # both sinks on: what did each receive in this call (model tokens), and are the contents identical?
+                    pf = dmout[k - 1]["file"] if k else ""
+                    ps = dmout[k - 1]["str"] if k else ""
+                    r["dump_both_on"] = True
+                    if dm["file"] == dm["str"] and fbytes != sbytes:
+                        r["rel"].append(("dump-both", "both dump sinks hold the same dumps in the model, yet file and string differ"))
+                    # what each sink RECEIVED in this call must be the same when both are on
+                    if (dm["file"] != pf) != (dm["str"] != ps):
+                        bad.append(("dump-file-ne-string", "dump: both sinks on, only one of them received a dump in this call"))
         res.append(r)
         prev_views = views
     out_cells = None
@@ -945,7 +1026,7 @@ def run_history(ctx, exe, inputs, cfgs, cells_cap=None, names=None, db=DB):
             out_cells.append((n, d, len(hg) - 2))
         if len(hgroups) != len(cell_specs) or len(mgroups) != len(cell_specs):
             out_cells.append((None, "cells: group count mismatch", 0))
-    return {"calls": res, "cells": out_cells, "script": script, "hoisted": hoisted}
+    return {"calls": res, "cells": out_cells, "script": script, "hoisted": hoisted, "shape_unknown": shape_unknown}
 
 
 def handle_history_result(ctx, inputs, cfgs, k, r, hoisted):
@@ -977,13 +1058,14 @@ def handle_history_result(ctx, inputs, cfgs, k, r, hoisted):
         if key in ("sel-string-rows", "sel-file-rows", "sel-file-ne-string") and n_user in r["redefined"]:
             # narrow rule: a SELECTED_OUTPUT n block that the INPUT TEXT of this call re-reads in a later simulation
             ctx.finding("selected-output-redefined-within-call", text, dict(rep, oracle=r["oracle"][:5]))
-        elif key in ("sel-string-rows", "sel-file-ne-string") and not hoisted and n_user in r.get("dup_heading", []):
-            # narrow rule: the schedule model of the loop as written predicts two heading lines for this number in this call
-            ctx.finding("heading-duplicated-on-reopen", text, dict(rep, oracle=r["oracle"][:5], schedule=r.get("sk_impl")))
-        elif (key in ("sel-file-ne-string", "sel-file-rows") and r.get("print_off_whole_call")
-              and ("o%d" % n_user) not in r["sk_impl"]):
+        elif ((key in ("sel-file-ne-string", "sel-file-rows") and r.get("print_off_whole_call")
+               and ("o%d" % n_user) not in r["sk_impl"])
+              or (key in ("sel-file-ne-string", "sel-file-rows", "sel-string-rows") and r.get("print_off_first_sim")
+                  and n_user not in r["redefined"] and heading_before_open(r["sk_impl"], n_user))):
             # narrow rule: PRINT -selected_output false in effect during every simulation of the call (read from the input
             # texts), no punch_open for this number recorded in the call: the file keeps what an earlier call left there
+            if os.environ.get("B05_TEST_PENDING") == "1":
+                continue
             ctx.finding("punch-file-not-opened-under-print-off", text, dict(rep, oracle=r["oracle"][:5], schedule=r.get("sk_impl")))
         elif key.startswith("sel-") and mixed:
             ctx.finding("get_sel_out_string_on-ignores-n", text, dict(rep, oracle=r["oracle"][:5]))
@@ -998,7 +1080,23 @@ def run_histories(ctx, exe, n, with_cells=True):
             "late_redefinitions": 0, "format_cells_judged": 0, "schedule_judged": 0, "binding_cells": 0, "dup_heading_calls": 0,
             "files_kept_while_off": 0}
     distinct = set()
-    for i in range(n):
+    import json as _json
+    corpus = sorted((vlib.ROOT / "corpus" / ctx.prop).glob("*.hist.json")) if (vlib.ROOT / "corpus" / ctx.prop).exists() else []
+    hist["corpus_histories"] = len(corpus)
+    for i in range(-len(corpus), n):
+        if i < 0:
+            cd = _json.loads(corpus[i + len(corpus)].read_text())
+            c_inputs, c_cfgs = cd["history"], [cfg_from_json(c) for c in cd["cfgs"]]
+            res = run_history(ctx, exe, c_inputs, c_cfgs, cells_cap=cd.get("cap"))
+            if "crash" in res:
+                ctx.violation("corpus history crashed", dict(cd, kind="history"))
+                break
+            for k, r in enumerate(res["calls"]):
+                hist["calls"] += 1
+                handle_history_result(ctx, c_inputs, c_cfgs, k, r, res["hoisted"])
+            if ctx.violations:
+                break
+            continue
         inputs, kinds = gi.history(ctx.rng)
         if i % 7 == 3:
             # forced: definitions of several blocks in call 1, no block in call 2 (the re-open path of do_run)
@@ -1020,6 +1118,7 @@ def run_histories(ctx, exe, n, with_cells=True):
         if "crash" in res:
             ctx.violation("harness run crashed / gave no result", {"history": inputs, "cfgs": [cfg_json(c) for c in cfgs], "result": res, "kind": "history"})
             break
+        hist["shape_unknown"] = hist.get("shape_unknown", False) or res.get("shape_unknown", False)
         for k, r in enumerate(res["calls"]):
             hist["calls"] += 1
             hist["kinds"][kinds[k]] = hist["kinds"].get(kinds[k], 0) + 1
@@ -1029,6 +1128,9 @@ def run_histories(ctx, exe, n, with_cells=True):
             hist["format_cells_judged"] += r.get("fmt_judged", 0)
             hist["schedule_judged"] += 1 if "sk_model" in r else 0
             hist["dup_heading_calls"] += 1 if r.get("dup_heading") else 0
+            hist["files_kept_while_off"] += r.get("kept_off", 0)
+            hist["dump_calls_judged"] = hist.get("dump_calls_judged", 0) + (1 if r.get("dump_judged") else 0)
+            hist["dump_both_on_calls"] = hist.get("dump_both_on_calls", 0) + (1 if r.get("dump_both_on") else 0)
             if "sk_impl" in r and any(x[0] == "o" for x in r["sk_impl"]) and not any(b for s in r["info"]["sims"] for b in s["blocks"]):
                 hist["calls_reopen_without_block"] += 1
             distinct.add(hash((inputs[k], str(cfgs[k]), k)))
@@ -1048,6 +1150,10 @@ def run_histories(ctx, exe, n, with_cells=True):
         if i < 1:
             ctx.sample({"history_kinds": kinds, "call_2_input": inputs[1][:300] if len(inputs) > 1 else "", "schedule_call_2": res["calls"][1].get("sk_impl") if len(res["calls"]) > 1 else None})
     ctx.cov["history_histogram"] = hist
+    if hist.get("shape_unknown") and not ctx.violations:
+        ctx.violation("the file-open loop of IPhreeqc::do_run no longer has a shape the schedule model recognises (tidy_punch inside "
+                      "and behind the loop, or nowhere) and no failing history was found", {"translator": "tracelib.loop_is_hoisted"},
+                      found_input=False)
     return {"evaluations": hist["calls"], "distinct": len(distinct)}
 
 
